@@ -86,6 +86,7 @@ class Check:
             'ext_deps': rng.random() < 0.6,
         }
         # configure_file(input:, configuration:) templates in each variable format and line-ending convention
+        extras['ct_env'] = rng.random() < 0.6      # a custom target whose env: is an environment() object (set/append/prepend/unset)
         extras['depmf'] = rng.random() < 0.5       # the dependency manifest (depmf.json) of a project with licence information
         extras['templates'] = [{'fmt': rng.choice(['meson', 'cmake', 'cmake@']), 'nl': rng.choice(['lf', 'crlf', 'crlf', 'mixed', 'cr']),
                                 'exec': rng.random() < 0.3, 'encoding': rng.choice([None, None, 'latin-1'])}
@@ -189,6 +190,11 @@ class Check:
             add.append(f"tdata{ti} = configuration_data()\ntdata{ti}.set('TZ_FLAG', true)\ntdata{ti}.set('TZ_NAME', 'name{ti}')\ntdata{ti}.set('TZ_VAL', {ti + 3})\n"
                        f"configure_file(input: 'tmpl{ti}.h.in', output: 'c06_tmpl{ti}.h', configuration: tdata{ti}, format: '{tp['fmt']}'{enc})\n")
             cfg_outputs.append(f'c06_tmpl{ti}.h')
+        if ex.get('ct_env'):
+            add.append("cenv = environment()\ncenv.set('C06_ZED', '1')\ncenv.set('C06_ALPHA', '2')\ncenv.append('C06_PATHLIKE', 'x', 'y')\ncenv.prepend('C06_PRE', 'p')\n"
+                       + ''.join(f"cenv.unset('{n}')\n" for n in ('C06_UNSET_ZULU', 'C06_UNSET_ALPHA', 'C06_UNSET_MIKE', 'LANGUAGE', 'C06_UNSET_ECHO'))
+                       + "custom_target('c06_envct', output: 'c06_envct.txt', command: [py, files('gen.py'), 'value', '@OUTPUT@', '3'], env: cenv, build_by_default: true)\n"
+                       "run_target('c06_envrun', command: [py, files('gen.py'), 'value', 'c06_envrun.txt', '4'], env: cenv)\n")
         if ex.get('ext_deps'):
             # external dependencies held in variables: they live in coredata's dependency cache across reconfigures
             head.append("thr_dep = dependency('threads')\n"
@@ -201,9 +207,9 @@ class Check:
         k = next(i for i, l in enumerate(lines) if l.startswith('gen = generator(')) + 1
         lines[k:k] = head
         if ex.get('depmf'):
-            assert lines[0].startswith("project('c05', 'c', ")
-            lines[0] = lines[0].replace("project('c05', 'c', ", "project('c05', 'c', version: '1.2.3', license: ['MIT', 'Apache-2.0', 'BSD-3-Clause'], "
-                                        "license_files: ['LICENSE.zz', 'LICENSE.aa'], ", 1)
+            assert lines[0].startswith("project('c05', ") and ', default_options: ' in lines[0]
+            lines[0] = lines[0].replace(", default_options: ", ", version: '1.2.3', license: ['MIT', 'Apache-2.0', 'BSD-3-Clause'], "
+                                        "license_files: ['LICENSE.zz', 'LICENSE.aa'], default_options: ", 1)
             for n in ('LICENSE.zz', 'LICENSE.aa'):
                 with open(os.path.join(sd, n), 'w') as f:
                     f.write('text of ' + n + '\n')
@@ -317,6 +323,9 @@ class Check:
         if rc != 0:
             if 'Traceback (most recent call last)' in out:
                 return R.violation('sut-exception', 'meson setup crashed: ' + out[-2000:], 'sut-exception:setup')
+            if not sc.get('corpus'):
+                # a generated project is valid by construction: looking away here would hide a generator bug or a broken setup
+                return R.harness_error('a generated project does not configure: ' + out[-1500:])
             add(probes, 'project-does-not-configure')
             return R.ok(nontrivial=False, probes=probes, summary={'skipped': 'baseline does not configure', 'why': out[-500:]})
         base = self.collect(bd, cfg_outputs)
